@@ -5,7 +5,7 @@
 From Coq Require Import List NArith Bool.
 From FS Require Import Sx Model.Path Model.Stat Model.Validator Model.Hardlinks Model.Diff Model.AbsDest
   Model.Codec Model.MetaBuffer Model.Listing Model.Converge Model.ConvergeA Model.MetaOnly Model.MetaTransfer
-  Proofs.ValidatorP Proofs.MetaOnlyP Proofs.MetaTransferP.
+  Proofs.ValidatorP Proofs.MetaOnlyP Proofs.MetaRewriteP Proofs.MetaAcceptP Proofs.MetaTransferP.
 From FS Require Proofs.ConvergeP Proofs.ReceiveP.
 From FSGen Require FromSource.
 Import ListNotations.
@@ -81,15 +81,57 @@ Theorem stack_exact : forall sel pre cur,
      /\ forall t, In t (pre ++ [cur]) -> sel t = true -> ~ is_prefix (cp d) (cp t)).
 Proof. exact stack_exact_proof. Qed.
 
-(* Hence the forwarded sequence is itself ordered and parent-closed (accepted by the order
-   validator), and — when the selector selects the link source of every hard link it selects
-   ([link_closed]) — accepted by the hard-link validator: the writer never meets a link whose
-   source it was not given. *)
-Theorem forwarded_valid : forall sel stats,
+(* ---- acceptance ----
+   [recv_accepts sel stats] = "the real receiver accepts" (Model/MetaOnly.v first_reject_d: per
+   handled STAT the order validator, and the hard-link validator ONLY for entries that are
+   forwarded — receive.go: if !metaOnly { r.hlValidator.HandleChange } —, so acceptance depends
+   on the selector).  It is the conjunction of the two validators on what each is shown ... *)
+Theorem accepts_iff : forall sel stats,
+  recv_accepts sel stats = true <->
+  (valid_stream (recv_stream stats) /\ hardlink_check (filter sel (recv_stream stats)) = None).
+Proof. exact accepts_iff_proof. Qed.
+
+(* ... an accepted selection is link-closed: it selects the link source of every hard link it
+   selects ... *)
+Theorem accepts_link_closed : forall sel stats,
+  recv_accepts sel stats = true -> link_closed sel (recv_stream stats) = true.
+Proof. exact accepts_link_closed_proof. Qed.
+
+(* ... and conversely, on a sequence both validators accept as a whole, every link-closed
+   selection is accepted: for such sequences  accepted <=> link-closed. *)
+Theorem link_closed_accepts : forall sel stats,
   valid_stream (recv_stream stats) -> hardlink_check (recv_stream stats) = None ->
-  link_closed sel (recv_stream stats) = true ->
+  link_closed sel (recv_stream stats) = true -> recv_accepts sel stats = true.
+Proof. exact link_closed_accepts_proof. Qed.
+
+(* A selection that forwards a hard link x but not its source t is REJECTED: the receive loop
+   stops with an error at index k, at or before x, and nothing that was handed to the diff /
+   writer by then ([applied] = forwarded entries caused by the first k handled STATs) has the
+   path of x — the link is never applied, so dest/<Linkname> is never resolved through what the
+   destination happens to hold (C03 finding: containment escape in MetadataOnly + Merge). *)
+Theorem unsourced_link_rejected : forall sel stats x t,
+  valid_stream (recv_stream stats) ->
+  In x (recv_stream stats) -> sel x = true -> hl_plain x = true -> has_link x = true ->
+  In t (recv_stream stats) -> st_path t = st_linkname x -> sel t = false ->
+  recv_accepts sel stats = false /\
+  exists k, first_reject sel (recv_stream stats) = Some k /\
+    applied sel (recv_stream stats) = r_forwarded (meta_recv sel (firstn k (recv_stream stats))) /\
+    forall z, In z (applied sel (recv_stream stats)) -> st_path z <> st_path x.
+Proof. exact unsourced_link_rejected_proof. Qed.
+
+(* Whenever the receiver accepts, the forwarded sequence is itself ordered and parent-closed
+   (accepted by the order validator) and accepted by the hard-link validator: the writer never
+   meets a link whose source it was not given. *)
+Theorem forwarded_valid : forall sel stats,
+  recv_accepts sel stats = true ->
   valid_stream (r_forwarded (meta_recv sel stats)) /\ hardlink_check (r_forwarded (meta_recv sel stats)) = None.
-Proof. exact forwarded_valid_proof. Qed.
+Proof. exact MetaAcceptP.forwarded_valid_proof. Qed.
+
+(* acceptance with a selector that writes into the stat: that of the sequence as it leaves it *)
+Theorem accepts_rw_sim : forall sel rw sel' stats,
+  (forall s, In s stats -> sel' (seen rw s) = sel s) ->
+  recv_accepts_rw sel rw stats = recv_accepts sel' (map (seen rw) stats).
+Proof. exact accepts_rw_sim_proof. Qed.
 
 (* The hypothesis of the two theorems above is about what the RECEIVER validates.  It follows
    from the validity of the announced sequence when no announced entry lies below the
@@ -153,10 +195,10 @@ Theorem registered_content : forall sel B p id,
   exists s c, nth_error B id = Some (s, c) /\ st_path s = p /\ In (s, c) (meta_proj sel B).
 Proof. exact registered_content_proof. Qed.
 
-(* ... (3) the projection is itself a well-formed listing with contents (given a link-closed
-   selector and no entry depending on the skipped listing-name entry) ... *)
+(* ... (3) the projection is itself a well-formed listing with contents (given that the
+   receiver accepts and no entry depends on the skipped listing-name entry) ... *)
 Theorem projection_wf : forall sel B,
-  wf_entries B -> listing_dependents (map fst B) = false -> link_closed sel (recv_stream (map fst B)) = true ->
+  wf_entries B -> listing_dependents (map fst B) = false -> recv_accepts sel (map fst B) = true ->
   wf_entries (meta_proj sel B).
 Proof. exact proj_wf_entries. Qed.
 
@@ -167,7 +209,7 @@ Proof. exact proj_wf_entries. Qed.
    new file).  AbsDest.identity_faithful (same identity key => same bytes) is C01's hypothesis. *)
 Theorem meta_transfer_converges : forall sel (H : bytes -> bytes) (hdr : stat -> bytes) d A B,
   wf_entries A -> wf_entries B ->
-  listing_dependents (map fst B) = false -> link_closed sel (recv_stream (map fst B)) = true ->
+  listing_dependents (map fst B) = false -> recv_accepts sel (map fst B) = true ->
   AbsDest.identity_faithful d A (meta_proj sel B) ->
   let r := receive_abs H hdr Fresh d A (meta_proj sel B) in
   ds_err r = false /\ approx A (meta_proj sel B) (view_of (ds_map r)) /\
@@ -185,12 +227,46 @@ Proof. exact meta_transfer_converges_proof. Qed.
    entries, for which plain transfers fail in the same way. *)
 Theorem meta_req_ids : forall sel (H : bytes -> bytes) (hdr : stat -> bytes) d A B,
   wf_entries A -> wf_entries B ->
-  listing_dependents (map fst B) = false -> link_closed sel (recv_stream (map fst B)) = true ->
+  listing_dependents (map fst B) = false -> recv_accepts sel (map fst B) = true ->
   AbsDest.identity_faithful d A (meta_proj sel B) ->
   (forall s, In s (map fst B) -> wants_content s = true -> mode_is_regular (st_mode s) = true) ->
   req_ids (r_files (meta_recv sel (map fst B))) (ds_reqs (receive_abs H hdr Fresh d A (meta_proj sel B)))
   = map Some (positions_from 0 (wanted sel d (map fst A)) (map fst B)).
 Proof. exact meta_req_ids_proof. Qed.
+
+
+(* ================= selectors that write into the stat they are handed =================
+   r.metadataOnly(path, p.Stat) receives the live *types.Stat after the record was framed.
+   [meta_recv_rw sel rw stats] (Model/MetaOnly.v): sel = the decision (on the stat as announced),
+   rw = the stat as the selector leaves it, [seen rw s] = rw s with the path restored
+   ("p.Stat.Path = path") = what the rest of the loop, the diff and the disk writer work with.
+   The listing is the announced sequence minus the listing name — whatever the selector writes. *)
+Theorem listing_exact_rw : forall sel rw stats,
+  r_listing (meta_recv_rw sel rw stats) = filter (fun s => negb (bytes_eqb (st_path s) listing_name)) stats.
+Proof. exact listing_exact_rw_proof. Qed.
+
+(* What the edits DO influence: registrations (fileCanRequestData on the edited mode) and the
+   forwarded entries are those of the pure transcript on the sequence as the selector left it,
+   for every sel' that decides on the rewritten stat as sel did on the announced one (any
+   selector that looks at the path only: sel' = sel) — so ids_aligned, ids_only_selected,
+   ids_complete, forwarded_exact, stack_exact, forwarded_valid and the compositions above apply to
+   [map (seen rw) stats]. *)
+Theorem rewrite_sim : forall sel rw sel' stats,
+  (forall s, In s stats -> sel' (seen rw s) = sel s) ->
+  r_files (meta_recv_rw sel rw stats) = r_files (meta_recv sel' (map (seen rw) stats)) /\
+  r_forwarded (meta_recv_rw sel rw stats) = r_forwarded (meta_recv sel' (map (seen rw) stats)).
+Proof. exact rewrite_sim_proof. Qed.
+
+Theorem forwarded_exact_rw : forall sel rw sel' stats,
+  (forall s, In s stats -> sel' (seen rw s) = sel s) ->
+  valid_stream (map (seen rw) (recv_stream stats)) ->
+  r_forwarded (meta_recv_rw sel rw stats)
+  = filter (needed sel' (map (seen rw) (recv_stream stats))) (map (seen rw) (recv_stream stats)).
+Proof. exact forwarded_exact_rw_proof. Qed.
+
+(* a pure predicate: the transcript of all theorems above *)
+Theorem pure_selector : forall sel stats, meta_recv_rw sel (fun s => s) stats = meta_recv sel stats.
+Proof. exact pure_selector_proof. Qed.
 
 Print Assumptions listing_exact.
 Print Assumptions ids_aligned.
@@ -201,6 +277,11 @@ Print Assumptions forwarded_exact.
 Print Assumptions forwarded_exact_plain.
 Print Assumptions stack_exact.
 Print Assumptions forwarded_valid.
+Print Assumptions accepts_iff.
+Print Assumptions accepts_link_closed.
+Print Assumptions link_closed_accepts.
+Print Assumptions unsourced_link_rejected.
+Print Assumptions accepts_rw_sim.
 Print Assumptions recv_valid_of_valid.
 Print Assumptions listing_roundtrip.
 Print Assumptions listing_roundtrip_any_order.
@@ -211,6 +292,10 @@ Print Assumptions registered_content.
 Print Assumptions projection_wf.
 Print Assumptions meta_transfer_converges.
 Print Assumptions meta_req_ids.
+Print Assumptions listing_exact_rw.
+Print Assumptions rewrite_sim.
+Print Assumptions forwarded_exact_rw.
+Print Assumptions pure_selector.
 
 (* ---- source-derived obligations (regenerated from /repo on every run) ---- *)
 Example from_source_listing_name : FromSource.metadata_path = listing_name.
@@ -239,7 +324,7 @@ Definition ex_sel (s : stat) : bool :=
   existsb (bytes_eqb (st_path s)) [[A;47;B;47;C]; [A;47;D]; [A;47;D;47;A]; listing_name].
 
 Example ex_valid : valid_stream ex_stream /\ valid_stream (recv_stream ex_stream)
-                   /\ link_closed ex_sel (recv_stream ex_stream) = true.
+                   /\ link_closed ex_sel (recv_stream ex_stream) = true /\ recv_accepts ex_sel ex_stream = true.
 Proof. vm_compute. repeat split; reflexivity. Qed.
 Example ex_run :
   map st_path (r_forwarded (meta_recv ex_sel ex_stream))
@@ -254,12 +339,32 @@ Example ex_stack :
   map st_path (mstack ex_sel [] (firstn 3%nat ex_stream)) = [[A;47;B]; [A]]
   /\ map st_path (mstack ex_sel [] (firstn 6%nat ex_stream)) = [[A;47;C]].
 Proof. vm_compute. split; reflexivity. Qed.
-(* without link closure the forwarded stream is rejected by the hard-link validator *)
+(* without link closure (a/d/a selected, its source a/b/c not) the receiver rejects at a/d/a
+   (index 6 of what it handles) although both validators accept the whole sequence; nothing had
+   been forwarded yet: the pending ancestors a, a/d are replayed only after the validators *)
 Example ex_not_link_closed :
   let sel' := fun s : stat => bytes_eqb (st_path s) [A;47;D;47;A] in
   link_closed sel' (recv_stream ex_stream) = false
+  /\ hardlink_check (recv_stream ex_stream) = None
+  /\ recv_accepts sel' ex_stream = false
+  /\ first_reject sel' (recv_stream ex_stream) = Some 6%nat
+  /\ applied sel' (recv_stream ex_stream) = []
   /\ hardlink_check (r_forwarded (meta_recv sel' ex_stream)) = Some 2%nat.
-Proof. vm_compute. split; reflexivity. Qed.
+Proof. vm_compute. repeat split; reflexivity. Qed.
+(* the C03 witness shape: d/ and d/f only recorded, h = a further name of d/f selected.  The
+   sender's sequence is fine; the receiver rejects h (index 2) with nothing applied, whereas a
+   selection that also takes d/f is accepted and forwards d, d/f, h *)
+Definition c03_stream : list stat :=
+  [ mkst [D] ModeDir []; mkst [D;47;102] F []; mkst [104] F [D;47;102] ].
+Example ex_c03_witness :
+  let only_h := fun s : stat => bytes_eqb (st_path s) [104] in
+  let h_and_f := fun s : stat => bytes_eqb (st_path s) [104] || bytes_eqb (st_path s) [D;47;102] in
+  valid_stream c03_stream /\ hardlink_check c03_stream = None
+  /\ recv_accepts only_h c03_stream = false /\ first_reject only_h (recv_stream c03_stream) = Some 2%nat
+  /\ applied only_h (recv_stream c03_stream) = []
+  /\ recv_accepts h_and_f c03_stream = true
+  /\ map st_path (applied h_and_f (recv_stream c03_stream)) = [[D]; [D;47;102]; [104]].
+Proof. vm_compute. repeat split; reflexivity. Qed.
 
 (* ---- the compositions on the same stream ---- *)
 (* the listing file of ex_stream: 8 records, read back exactly; a cut file is an error or a
@@ -290,7 +395,7 @@ Definition ex_A : list AbsDest.entry :=
 
 Example ex_transfer_hypotheses :
   wf_entries ex_A /\ wf_entries ex_B /\ listing_dependents (map fst ex_B) = false
-  /\ link_closed ex_sel2 (recv_stream (map fst ex_B)) = true
+  /\ recv_accepts ex_sel2 (map fst ex_B) = true
   /\ AbsDest.identity_faithful DMetadata ex_A (meta_proj ex_sel2 ex_B)
   /\ valid_stream (recv_stream (map fst ex_B))
   /\ forallb (fun s => negb (wants_content s) || mode_is_regular (st_mode s)) (map fst ex_B) = true.
@@ -319,18 +424,37 @@ Example ex_transfer :
   /\ converged_o false ex_A ex_B (view_of (ds_map r)) = false.
 Proof. vm_compute. repeat split; reflexivity. Qed.
 
+(* a selector that normalises uid/gid/mtime of everything, chmods go-rwx what it selects (harness
+   kind 5) — or scribbles over the path (kind 6): the listing still holds the 8 stats as announced;
+   what is forwarded carries the edits (uid 12, a/b/c 0644 -> 0600, the unselected ancestor a keeps
+   its mode), under the announced paths *)
+Example ex_writing_selector :
+  let rw5 := fun s => rw_of 5 (ex_sel s) s in
+  let rw6 := fun s => rw_of 6 (ex_sel s) s in
+  r_listing (meta_recv_rw ex_sel rw5 ex_stream) = recv_stream ex_stream
+  /\ map (fun s => (st_path s, st_uid s, st_mode s)) (r_forwarded (meta_recv_rw ex_sel rw5 ex_stream))
+     = [([A], 12, ModeDir); ([A;47;B], 12, ModeDir); ([A;47;B;47;C], 12, 384); ([A;47;D], 12, ModeDir);
+        ([A;47;D;47;A], 12, 384)]
+  /\ r_files (meta_recv_rw ex_sel rw5 ex_stream) = r_files (meta_recv ex_sel ex_stream)
+  /\ st_path (rw6 (mkst [A] ModeDir [])) = [120]
+  /\ r_listing (meta_recv_rw ex_sel rw6 ex_stream) = recv_stream ex_stream
+  /\ map st_path (r_forwarded (meta_recv_rw ex_sel rw6 ex_stream)) = map st_path (r_forwarded (meta_recv ex_sel ex_stream))
+  /\ stat_eqb (hd (mkst [] 0 []) (r_forwarded (meta_recv_rw ex_sel rw6 ex_stream))) (mkst [A] ModeDir []) = false.
+Proof. vm_compute. repeat split; reflexivity. Qed.
+
 (* ---- the corner the hypothesis [valid_stream (recv_stream stats)] excludes (finding
         listing-name-entry-has-dependents, witnesses in corpus/C19): the announced sequence is
         valid, the receiver skips the listing-name entry before validating, and rejects what
-        depends on it ---- *)
+        depends on it — a child always, a hard link to it when that link is forwarded ---- *)
 Definition dep_dir : list stat :=
   [ mkst listing_name ModeDir []; mkst (listing_name ++ [47; A]) F [] ].
 Definition dep_link : list stat :=
   [ mkst listing_name F []; mkst [A] F listing_name ].
 Example dependents_rejected :
-  valid_stream dep_dir /\ hardlink_check dep_dir = None /\ recv_accepts dep_dir = false
+  valid_stream dep_dir /\ hardlink_check dep_dir = None /\ recv_accepts (fun _ => false) dep_dir = false
   /\ run_validator (map vitem_of (recv_stream dep_dir)) = Some 0%nat
-  /\ valid_stream dep_link /\ hardlink_check dep_link = None /\ recv_accepts dep_link = false
+  /\ valid_stream dep_link /\ hardlink_check dep_link = None /\ recv_accepts (fun _ => true) dep_link = false
+  /\ recv_accepts (fun _ => false) dep_link = true
   /\ hardlink_check (recv_stream dep_link) = Some 0%nat
   /\ listing_dependents dep_dir = true /\ listing_dependents dep_link = true.
 Proof. vm_compute. repeat split; reflexivity. Qed.
